@@ -62,6 +62,10 @@ type Scenario struct {
 	// scripts that never block, because nothing would ever end a blocked
 	// stream of such a transport that was opened after Close (DESIGN 5.1).
 	IgnoreCtx bool `json:"ignore_ctx,omitempty"`
+	// Resub: after Close (or the cancellation followed by a Close) and the
+	// return of the first Subscribe, Subscribe is called again on the same,
+	// now closed, reconnecting client: it must return.
+	Resub bool `json:"resubscribe,omitempty"`
 }
 
 type H struct{}
@@ -114,6 +118,7 @@ func (H) Generate(rng *simrt.Rand, prop, tier string) (any, simrt.Config) {
 	}
 	sc.Poll = !sc.Reconnect && rng.Chance(0.3)
 	sc.BufferedEnd = rng.Chance(0.5)
+	sc.Resub = sc.Reconnect && sc.Action != "none" && rng.Chance(0.3)
 	if sc.Action == "close" && rng.Chance(0.3) {
 		sc.IgnoreCtx = true
 		for _, as := range sc.Types {
@@ -447,6 +452,30 @@ func (H) Execute(x *common.Exec, s any) {
 		return
 	}
 	_ = sub
+	// ---- afterwards (whatever the judgement below returns through): a closed
+	// reconnecting client stays closed
+	defer func() {
+		if len(x.Viol) > 0 || x.Inconclusive != "" || !sc.Resub || !subDone || !closeDone {
+			return
+		}
+		var again bool
+		var againErr error
+		t0 := x.R.Now()
+		x.R.Go("subscribe-again", func() {
+			c.Close()
+			againErr = c.Subscribe(context.Background(), q, types...)
+			again = true
+		})
+		limit := t0 + time.Duration(maxConnect) + time.Duration(4*sc.MaxNs) + 10*time.Second
+		o := x.R.Schedule(false, func() bool { return x.R.Now() > limit || x.R.Steps > 28000 })
+		x.R.AcquireEnd()
+		x.Oblige(1)
+		x.Fault("subscribe-again-on-closed-client")
+		if !again && o != simrt.StepLimit {
+			x.Violate("C18/subscribe-on-closed-client-did-not-return", "after %s (and Close) a second Subscribe on the same reconnecting client has not returned after %v of virtual time (outcome %v: %s)", sc.Action, x.R.Now()-t0, o, x.R.Summary())
+		}
+		_ = againErr
+	}()
 	// ---- judging
 	var evs []ev
 	for _, e := range w.evs {
